@@ -12,6 +12,7 @@ import numpy as np
 from bisect import bisect_left
 from hopcroftkarp import HopcroftKarp
 import warnings
+from . import _verif
 
 __all__ = ["bottleneck"]
 
@@ -101,6 +102,8 @@ def bottleneck(dgm1, dgm2, matching=False):
     ds = np.sort(np.unique(D.flatten()))  # [0:-1]  # Everything but np.inf
     bdist = ds[-1]
     matching = {}
+    if _verif.enabled:
+        _verif.emit("matrix", M=M, N=N, D=D.tolist())
     while len(ds) >= 1:
         idx = 0
         if len(ds) > 1:
@@ -110,6 +113,8 @@ def bottleneck(dgm1, dgm2, matching=False):
         for i in range(D.shape[0]):
             graph["{}".format(i)] = {j for j in range(D.shape[1]) if D[i, j] <= d}
         res = HopcroftKarp(graph).maximum_matching()
+        if _verif.enabled:
+            _verif.emit("probe", n_ds=len(ds), idx=idx, d=float(d), res_len=len(res))
         if len(res) == 2 * D.shape[0] and d <= bdist:
             bdist = d
             matching = res
